@@ -38,6 +38,22 @@ where
   pub fn clear(&self) {
     *self.inner.write().unwrap() = None;
   }
+  /// clears the slot and, if a function was present, runs `then` while the
+  /// slot is still locked (so nobody can observe the slot empty before `then`
+  /// has finished)
+  pub fn clear_if_available_and<R>(&self, then: impl FnOnce() -> R) -> Option<R> {
+    let mut f = self.inner.write().unwrap();
+    if f.take().is_some() {
+      Some(then())
+    } else {
+      None
+    }
+  }
+  /// moves the function (if any) out into a wrapper of its own
+  pub fn take(&self) -> FunctionWrapper<'a, In, Out> {
+    let inner = self.inner.write().unwrap().take();
+    FunctionWrapper { inner: Arc::new(RwLock::new(inner)) }
+  }
   pub fn empty(&self) -> bool {
     self.inner.read().unwrap().is_none()
   }
